@@ -5,6 +5,7 @@
     implementation by the C08 harness: identical text loaded twice, in another file-creation order and GOMAXPROCS, and a
     menu of relevant / irrelevant edits per program.) *)
 From Dawn Require Import Fingerprint.Model Fingerprint.Proofs Fingerprint.Proofs_Iso Fingerprint.Proofs_Payload.
+From Dawn Require Import Fingerprint.ValueMemo Fingerprint.Proofs_ValueMemo.
 
 (** Fingerprinting terminates -- with fuel bounded by the number of functions -- on EVERY graph: self-recursion, mutual
     recursion through any number of functions, closures referring to their makers, shared helpers. *)
@@ -80,6 +81,37 @@ Theorem fingerprint_sensitive_to_payload :
 Proof. exact Proofs_Payload.fingerprint_sensitive_to_payload_lemma. Qed.
 Print Assumptions fingerprint_sensitive_to_payload.
 
+(** The encoder's memo over the VALUES a function references (Fingerprint/ValueMemo.v): each referenced value is met as
+    (memo key, content); a value whose key has been filed is emitted as a back-reference to the position of that key,
+    any other is written out and filed.  [faithful]: two values filed under the same key have the same content -- true
+    of the implementation's keys (the Go value itself for the comparable kinds, i.e. the pointer of a list / dict / set /
+    function / builtin; tuples and scalars are not filed at all), and checked on the real code by the related-values
+    family of the harness (pairs of values that share storage, are equal, or are parts of one another).
+    What the reader resolves from the emission is then exactly what the function references, value by value. *)
+Theorem value_memo_roundtrip : forall l, faithful l -> vread [] (vemit [] l) = Some (map snd l).
+Proof. exact Proofs_ValueMemo.value_memo_roundtrip. Qed.
+Print Assumptions value_memo_roundtrip.
+
+(** ... so changing the content of any referenced value changes the emission, whatever is shared with what. *)
+Theorem value_memo_sensitive :
+  forall l1 l2, faithful l1 -> faithful l2 -> vemit [] l1 = vemit [] l2 -> map snd l1 = map snd l2.
+Proof. exact Proofs_ValueMemo.value_memo_sensitive. Qed.
+Print Assumptions value_memo_sensitive.
+
+(** The emission depends on the keys only through which meetings have EQUAL keys: other addresses (another process,
+    another load order) give the same emission. *)
+Theorem value_memo_deterministic :
+  forall f : N -> N, (forall a b, f a = f b -> a = b) ->
+  forall l, vemit [] (map (fun kc => (f (fst kc), snd kc)) l) = vemit [] l.
+Proof. exact Proofs_ValueMemo.value_memo_deterministic. Qed.
+Print Assumptions value_memo_deterministic.
+
+(** [faithful] is needed: a key that forgets part of the value -- a tuple filed under the address of its first element,
+    so that T, T[:2] and T[:3] share the key -- gives one emission for different referenced values. *)
+Theorem unfaithful_key_refuted : exists l1 l2, vemit [] l1 = vemit [] l2 /\ map snd l1 <> map snd l2.
+Proof. exact Proofs_ValueMemo.unfaithful_key_refuted. Qed.
+Print Assumptions unfaithful_key_refuted.
+
 (** non-vacuity: mutual recursion even <-> odd used by third (which also calls itself), target t *)
 Definition ex_g1 : graph :=
   [(1, mkFn 101 1001 [4]); (2, mkFn 102 1002 [3]); (3, mkFn 103 1003 [2]); (4, mkFn 104 1004 [2; 4])].
@@ -151,4 +183,19 @@ Proof.
   destruct (fingerprint_terminates (set_code ex_g1 3 1009) 1) as (ts' & s' & E').
   exists ts, s, ts', s'. split; [exact E|]. split; [exact E'|].
   apply (fingerprint_sensitive_to_payload ex_g1 1 3 (mkFn 103 1003 [2]) 1009 ts s ts' s' R); [reflexivity|discriminate|exact E|exact E'].
+Qed.
+
+(** [value_memo_sensitive]'s hypotheses hold and its conclusion is not vacuous: a function that references a list L
+    (key 5, content 100) twice and a tuple T = 200 next to its prefix slice T[:2] = 201 (tuples are not filed: fresh
+    keys 6, 7): the list is written once and referred back to, both tuples are written in full, and editing the slice
+    bound (T[:2] -> T[:3] = 202) changes the emission. *)
+Example value_memo_example :
+  faithful [(5, 100); (5, 100); (6, 200); (7, 201)] /\
+  vemit [] [(5, 100); (5, 100); (6, 200); (7, 201)] = [VFull 100; VBack 0; VFull 200; VFull 201] /\
+  vemit [] [(5, 100); (5, 100); (6, 200); (7, 201)] <> vemit [] [(5, 100); (5, 100); (6, 200); (7, 202)].
+Proof.
+  split; [|split; [reflexivity|discriminate]].
+  intros k c c' H H'. cbn in H, H'.
+  repeat (destruct H as [H|H]; [inversion H; subst; clear H|]); try contradiction;
+  repeat (destruct H' as [H'|H']; [inversion H'; subst; clear H'|]); try contradiction; try reflexivity; try discriminate.
 Qed.
